@@ -28,6 +28,9 @@ def cz(v, model, universe=None):
     if isinstance(v, VStr):
         r = _ev(model, v.e)
         return r.as_string() if z3.is_string_value(r) else str(r)
+    if isinstance(v, VPath):
+        r = _ev(model, v.e)
+        return {"$path": r.as_string() if z3.is_string_value(r) else str(r)}
     if isinstance(v, VNone):
         return None
     if isinstance(v, VUn):
